@@ -394,3 +394,34 @@ Theorem c19_cache_package_skips_rebuild : forall origin srv gunzip (bs : list bu
   resolve (dsk s) tar = Some (origin tar, true) /\ snd (exec gunzip (dsk s) (Rebuild gz tar tmp)) = [].
 Proof. exact cache_package_skips_rebuild. Qed.
 Print Assumptions c19_cache_package_skips_rebuild.
+
+(* Offline mode, the part c19_offline_partial leaves open.  fetchOffline may
+   open the temporary file of an index download (killed or still running).
+   No hypothesis on the schedule: for every origin, builders, schedule and
+   kills, what it then reads is a PREFIX of the body of a response the origin
+   really gave, earlier, for that directory; and if the file is complete
+   (written in full and closed — the kill came after the last write, before
+   the link) it is that whole body: a complete origin revision [e], the bytes
+   [origin (PIndex dir e)].  So an offline build that picks a temporary file
+   either parses a complete served revision or a strict prefix of one (which,
+   signed and gzip-framed, fails to parse — confirmed on the real code at every
+   truncation point tried, harness stage offline-trunc). *)
+Theorem c19_offline_tmp_complete_is_origin : forall origin srv gunzip (bs : list builder) sched j dir c b,
+  etag_names_content origin srv ->
+  let s := run gunzip srv (init (progs bs)) sched in
+  nth_error bs j = Some (BIndex dir) ->
+  read_offline (dsk s) (PTmpFile dir j) = Some (c, b) ->
+  exists t e w k, t < clk s /\ srv t dir = (e, w) /\ w = origin (PIndex dir e) /\
+                  c = firstn k w /\ (b = true -> c = origin (PIndex dir e)).
+Proof.
+  intros origin srv gunzip bs sched j dir c b Hsrv s Hb Hr.
+  pose proof (index_tmp_is_origin_prefix gunzip srv false bs sched j dir Hb) as H.
+  change (run gunzip srv (init (progs_ord false bs)) sched) with s in H.
+  unfold read_offline, resolve in Hr.
+  destruct (dsk s (PTmpFile dir j)) as [[c' b'|t|]|]; cbv iota in H; try discriminate; try contradiction.
+  inversion Hr; subst c' b'. destruct H as (t & e & w & k & Ht & E & Hc & Hb').
+  assert (Hw : w = origin (PIndex dir e)).
+  { pose proof (Hsrv t dir) as B. rewrite E in B. exact B. }
+  exists t, e, w, k. repeat split; auto. intros Eb. rewrite (Hb' Eb). exact Hw.
+Qed.
+Print Assumptions c19_offline_tmp_complete_is_origin.
